@@ -4,7 +4,7 @@
     [C11_pinned_le_iters] (proofs/C11_Chain.v).
 
     [gwalk] is what the verif hook VerifWalk does, on the GoLite heap: follow
-    the field [next] (offset 2) from [im.head] until nil; [gdeleted] counts the
+    the field [next] (offset 2) from [im.head] until nil (fuel: the number of node arrays plus one); [gdeleted] counts the
     visited objects whose [state] (offset 0) is rlDeleted (2).  After every
     well-formed history (shorter than 2^60 calls), under every pool oracle:
     nodes reachable from head = len(im.vals) + 1 + pinned, and pinned <= the
@@ -30,8 +30,8 @@ Definition gdeleted (gh : heap) (l : list Z) : nat :=
 Lemma gwalk_nil f gh : gwalk f gh 0 = [].
 Proof. destruct f; reflexivity. Qed.
 
-Lemma gwalk_gheap pl mh : closed mh -> forall f x, (x < length mh)%nat ->
-  gwalk f (gheap pl mh) (ptr x) = map ptr (walk f mh x).
+Lemma gwalk_gheap lg pl mh : closed mh -> forall f x, (x < length mh)%nat ->
+  gwalk f (gheap lg pl mh) (ptr x) = map ptr (walk f mh x).
 Proof.
   intros C. induction f as [|f IH]; intros x Hx; [reflexivity|]. cbn [gwalk walk].
   pose proof (ptr_pos x) as Hp. destruct (Z.leb_spec (ptr x) 0) as [H|_]; [lia|].
@@ -49,8 +49,8 @@ Proof.
   destruct (n_next n) as [z|]; [exact (IH z H)|destruct H].
 Qed.
 
-Lemma gdeleted_gheap pl mh l : (forall y, In y l -> (y < length mh)%nat) ->
-  gdeleted (gheap pl mh) (map ptr l) =
+Lemma gdeleted_gheap lg pl mh l : (forall y, In y l -> (y < length mh)%nat) ->
+  gdeleted (gheap lg pl mh) (map ptr l) =
   length (filter (fun n => nstate_eqb (n_st n) StDeleted)
             (flat_map (fun x => match nth_error mh x with Some n => [n] | None => [] end) l)).
 Proof.
@@ -64,19 +64,19 @@ Qed.
 
 Theorem gen_chain_bound : forall ops ch, wf_hist ops -> Z.of_nat (length ops) < 2 ^ 60 ->
   exists im its al gh,
-    gen_final_map lit_Put lit_Get ch ops = Some ((im, its, al), gh) /\
-    let chain := gwalk (length gh) gh (Gen.Map_head im) in
+    gen_final_map [] lit_Put lit_Get ch ops = Some ((im, its, al), gh) /\
+    let chain := gwalk (length gh - 1) gh (Gen.Map_head im) in
     length chain = (Z.to_nat (Gen.Map_Len im) + 1 + gdeleted gh chain)%nat /\
     (gdeleted gh chain <= length its)%nat.
 Proof.
   intros ops ch Hwf Hlen.
-  destruct (gen_final_map_refines lit_Put lit_Get lit_put_spec lit_get_spec ops ch Hwf Hlen) as (E & W).
+  destruct (gen_final_map_refines [] lit_Put lit_Get lit_put_spec lit_get_spec ops ch Hwf Hlen) as (E & W).
   fold (reach ch ops) in E, W. set (s := reach ch ops) in *.
-  exists (gmap s), (enc_its (iters s)), (allocs s), (sheap s). split; [exact E|].
+  exists (gmap s), (enc_its (iters s)), (allocs s), (sheap [] s). split; [exact E|].
   destruct W as (((C & Hhd & _) & _) & _).
-  cbv zeta. unfold sheap. rewrite length_gheap.
+  cbv zeta. unfold sheap. rewrite length_gheap. cbn [Nat.sub].
   change (Gen.Map_head (gmap s)) with (ptr (head s)). rewrite gen_Len_refines, Nat2Z.id.
-  rewrite (gwalk_gheap _ _ C) by exact Hhd. change (walk (S (length (heap_of s))) (heap_of s) (head s)) with (i_chain s).
+  rewrite (gwalk_gheap _ _ _ C) by exact Hhd. change (walk (S (length (heap_of s))) (heap_of s) (head s)) with (i_chain s).
   rewrite map_length, gdeleted_gheap by (intros y Hy; exact (walk_in_range _ _ _ _ Hy)).
   change (length (filter _ (flat_map _ (i_chain s)))) with (count_deleted s).
   split; [apply chain_length; exact Hwf|].
@@ -84,10 +84,10 @@ Proof.
 Qed.
 
 Example gen_ex_chain :
-  match gen_final_map lit_Put lit_Get always_reuse
+  match gen_final_map [] lit_Put lit_Get always_reuse
           [OAdd 1 11; OAdd 2 12; OAdd 3 13; ONewIter 7; ONewIter 8; ONext 8; ORemove 1; ORemove 2] with
   | Some ((im, its, _), gh) =>
-      let chain := gwalk (length gh) gh (Gen.Map_head im) in
+      let chain := gwalk (length gh - 1) gh (Gen.Map_head im) in
       (length chain, Gen.Map_Len im, gdeleted gh chain, length its) = (4%nat, 1, 2%nat, 2%nat)
   | None => False
   end.
